@@ -20,7 +20,7 @@ RULE = ("case = generated enum (idents, explicit/implicit values, renames incl. 
 
 PROFILE = S.profile(renames=0.5, dups=0.1, attrs=0.1, cfg_off=0.0, sizes=[("small", 95), ("medium", 5)],
                     orders=["identity"])
-ARRANGE = ["both", "by_value", "by_name", "by_value_swap", "by_name_swap", "both_swap", "as_is", "reverse"]
+ARRANGE = ["both", "by_value", "by_name", "by_value_swap", "by_name_swap", "both_swap", "as_is", "reverse", "by_name_dup", "by_value_rotate", "by_name_rotate"]
 FLAGS = [["name", "value"], ["value"], ["name"], ["value", "name"], ["name"], ["value"], [], None]
 
 
@@ -63,6 +63,18 @@ def arrange(case):
     if arr.endswith("_swap") and len(items) >= 2:
         k = case["swap_at"] % (len(items) - 1)
         items[k], items[k + 1] = items[k + 1], items[k]
+    if arr.endswith("_rotate") and len(items) >= 2:
+        # the greatest element first, the rest ascending: exactly one descending step, right after the maximum
+        items = [items[-1]] + items[:-1]
+    if arr == "by_name_dup" and len(items) >= 2:
+        # two adjacent variants with EQUAL names (not strictly ascending); the empty string is a name like any other
+        k = case["swap_at"] % (len(items) - 1)
+        shared = ["", items[k]["name"], " ", "a"][(case["swap_at"] // 7) % 4]
+        if k == 0 or nkey(items[k - 1]["name"]) < nkey(shared) or True:
+            for j in (k, k + 1):
+                items[j]["name"] = shared
+                items[j]["rename"] = shared
+                items[j]["rename_raw"] = False
     variants = []
     prev = -1
     for x in items:
